@@ -470,6 +470,9 @@ def run_symbolic(h, budget_s=300.0, max_paths=100000, validate=True):
             return
         if isinstance(state.get("out"), tuple) and state["out"] and state["out"][0] == "__raised__":
             return
+        if getattr(c, "nondet", False):
+            res["validation_skipped"] += 1
+            return
         m = c.feasible_model()
         if m is None:
             return
